@@ -129,6 +129,13 @@ def scenarios():
         val = BIG[4096][:n] if n <= 4096 else (BIG[8192] + BIG[4096])[:n]
         hdr = b"VALUE big 0 %d\r\n" % n
         add("raw-get-big-%d" % n, {b"big": (val, 0)}, ("raw_command", (b"get big", b"END\r\n"), {}), ("ret", hdr + val + b"\r\n"))
+    logval = (BIG[4096][:4100] + b"\r\nERROR disk full on shard 7\r\nSERVER_ERROR out of memory\r\nCLIENT_ERROR bad data chunk\r\n"
+              + BIG[4096][:900] + b"\r\nEND of log\r\nERROR again\r\n" + BIG[4096][:300])
+    hdr = b"VALUE big 0 %d\r\n" % len(logval)
+    add("raw-get-big-log-END", {b"big": (logval, 0)}, ("raw_command", (b"get big", b"\r\nEND\r\n"), {}), ("ret", hdr + logval))
+    add("raw-get-big-log-7byte", {b"big": (logval + b"\n", 0)}, ("raw_command", (b"get big", b"\n\r\nEND\r\n"), {}),
+        ("ret", b"VALUE big 0 %d\r\n" % (len(logval) + 1) + logval))
+    add("get-big-log", {b"big": (logval, 0)}, ("get", ("big",), {}), ("ret", logval))
     add("raw-config-ERROR-7byte", {}, ("raw_command", (b"config get cluster", b"\n\r\nEND\r\n"), {}),
         ("exc", "MemcacheUnknownCommandError"))
     add("raw-get-END-server_error", {b"h": (b"hello", 0)}, ("raw_command", (b"get h", b"END\r\n"), {}),
@@ -138,6 +145,43 @@ def scenarios():
     add("aws-discovery", {}, ("AWS", (), {}), ("ret", ["10.1.0.1:11211", "10.1.0.2:11212"]),
         server_kw={"cluster_config": (12, nodes)})
     return S
+
+
+STREAMS = {}          # scenario -> {call id: bytes delivered}, filled by the single-piece delivery
+
+
+def keyword_cuts(stream, tier, rng):
+    """cut schedules aligned with what the stream CONTAINS: 0..8 bytes into every protocol keyword and end token that occurs
+    in it, alone and combined with a cut at / shortly after the end of that line (and with receive-size boundaries) - a
+    reader that looks at the front of a window, or keeps a tail of len(token)-1 bytes, is sensitive to exactly these"""
+    L = len(stream)
+    words = (b"ERROR", b"CLIENT_ERROR", b"SERVER_ERROR", b"END", b"VALUE", b"STAT", b"STORED", b"\n\r\nEND")
+    occ = []
+    for wd in words:
+        at = stream.find(wd)
+        while at != -1:
+            occ.append((at, wd))
+            at = stream.find(wd, at + 1)
+    if len(occ) > (60 if tier == "quick" else 400):
+        occ = rng.sample(occ, 60 if tier == "quick" else 400)
+    seen = set()
+    for at, wd in occ:
+        eol = stream.find(b"\r\n", at)
+        for j in range(0, 9):
+            c1 = at + j
+            if not 0 < c1 < L:
+                continue
+            outs = [(c1,)]
+            if eol != -1:
+                for d in (0, 1, 2, 3, 9):
+                    if c1 < eol + d < L:
+                        outs.append((c1, eol + d))
+                        if L > 4096:
+                            outs.append(tuple(sorted({4096, c1, eol + d})) if 4096 < c1 else (c1, eol + d))
+            for c in outs:
+                if c not in seen:
+                    seen.add(c)
+                    yield c, ()
 
 
 def deliver(sc, segspec):
@@ -154,6 +198,9 @@ def deliver(sc, segspec):
     for k, v in server_kw.items():
         setattr(srv, k, v)
     net = w.net
+    if segspec == ("whole",):
+        net.capture = {}
+        STREAMS[name] = net.capture
     if op[0] == "AWS":
         from pymemcache.client.ext.aws_ec_client import AWSElastiCacheHashClient
         net.add_server("mc1.cfg.cache.amazonaws.com", 11211, srv)
@@ -267,7 +314,10 @@ def shard(tier, seed, idx, n):
                 res.violation("whole-delivery-wrong:" + name, "single-piece delivery gives %r, reference server says %r"
                               % (ref, exp), (name, (), ()))
         rng = random.Random(seed * 31 + si)
-        for ci, (cuts, eintr) in enumerate(cutsets(L, tier, rng, name)):
+        stream = bytes(STREAMS.get(name, {}).get(0, b""))
+        extra = list(keyword_cuts(stream, tier, random.Random(seed * 37 + si))) if len(stream) > (14 if tier == "quick" else 20) else []
+        res.count("keyword_aligned_schedules", len(extra) if idx == si % n else 0)
+        for ci, (cuts, eintr) in enumerate(itertools.chain(cutsets(L, tier, rng, name), extra)):
             work += 1
             if work % n != idx:
                 continue
